@@ -21,6 +21,7 @@ class Bench:
         self.fn_seen = set()
         self.intr_seen = set()
         self.validated = 0
+        self.cvc5 = []
 
     def engine(self, profile="dev"):
         if profile not in self._eng:
@@ -101,6 +102,7 @@ class Bench:
             dt = time.time() - t
             m = s.model() if r == z3.sat else None
         self.n_queries += 1
+        self.cross_check(name, s, r)
         if dt > 5 or os.environ.get("VERIF_VERBOSE"):
             log("[solve] %-50s %-7s %.1fs" % (name, r, dt))
         self.rep.query(name, str(r), dt)
@@ -108,9 +110,30 @@ class Bench:
             self.rep.inconclusive.append("solver returned unknown for %s (%s)" % (name, s.reason_unknown()))
         return r, m
 
+    def cross_check(self, name, solver, r):
+        """re-decide a sample of the queries with cvc5 (SMT-LIB2 export of the z3 solver state); a disagreement or an
+        error line makes the run inconclusive"""
+        if r not in (z3.sat, z3.unsat) or self.n_queries % 17 != 3 or len(self.cvc5) >= 12 or os.environ.get("VERIF_NO_CVC5"):
+            return
+        import subprocess, tempfile
+        try:
+            text = "(set-logic ALL)\n" + solver.sexpr() + "\n(check-sat)\n"
+            with tempfile.NamedTemporaryFile("w", suffix=".smt2", dir=self.ctx.root, delete=False) as f:
+                f.write(text)
+                path = f.name
+            out = subprocess.run(["cvc5", "--lang", "smt2", "--tlimit=20000", path], capture_output=True, text=True, timeout=40)
+            ans = (out.stdout.strip().splitlines() or ["?"])[-1]
+            if "(error" in out.stdout or "(error" in out.stderr:
+                ans = "error"
+        except Exception as e:
+            ans = "unavailable"
+        self.cvc5.append(dict(query=name, z3=str(r), cvc5=ans))
+        if ans in ("sat", "unsat") and ans != str(r):
+            self.rep.inconclusive.append("z3 and cvc5 disagree on %s (%s vs %s)" % (name, r, ans))
+
     def coverage_common(self):
         return dict(functions_encoded=sorted(self.fn_seen)[:400], n_functions_encoded=len(self.fn_seen),
-                    intrinsics_used=sorted(self.intr_seen), validation_inputs=self.validated)
+                    intrinsics_used=sorted(self.intr_seen), validation_inputs=self.validated, cvc5_cross_check=self.cvc5)
 
     # ------------------------------------------------------------------ native
     def native_all(self, inputs):
